@@ -80,6 +80,9 @@ type c07ACase struct {
 	Ops   []c07AOp `json:"ops"`
 	// CloseStalled: Close is called while the disk is still stalled (it must wait, by design) and the disk resumes a moment later
 	CloseStalled bool `json:"close_stalled,omitempty"`
+	// StallFlushMs: at the end one more record is written, the disk stalls, Flush is called and the disk resumes this much later;
+	// however long that takes, Flush returns only when the record is in the file (and later calls still work)
+	StallFlushMs int `json:"stall_flush_ms,omitempty"`
 }
 
 func c07AGen(t *rapid.T) c07ACase {
@@ -89,6 +92,9 @@ func c07AGen(t *rapid.T) c07ACase {
 		c.Depth = rapid.SampledFrom([]int{300, 1000}).Draw(t, "deepdepth") // the LJH/OFF writers use 1000
 	}
 	c.CloseStalled = rapid.IntRange(0, 2).Draw(t, "closestalled") == 0
+	if rapid.IntRange(0, 999).Draw(t, "stallflush") == 437 { // (rapid favours the ends of a range: an inner value keeps this rare, a few cases per shard)
+		c.StallFlushMs = rapid.SampledFrom([]int{300, 1200, 2300}).Draw(t, "stallms")
+	}
 	n := rapid.IntRange(1, 60).Draw(t, "nops")
 	for i := 0; i < n; i++ {
 		if deep && rapid.IntRange(0, 5).Draw(t, "burst") == 0 {
@@ -177,6 +183,34 @@ func c07ARun(c c07ACase) (v vVerdict) {
 					i, len(got), len(want), c07FirstDiff(got, want))
 			}
 		}
+	}
+	if c.StallFlushMs > 0 && c.StallFlushMs <= 5000 {
+		gate.set(true)
+		aw.Flush()
+		for round := 0; round < 2; round++ { // the second round: a Flush after the long one must still be a real flush
+			p := make([]byte, 700)
+			for k := range p {
+				p[k] = c07APattern(pos + k)
+			}
+			if n, err := aw.Write(p); err == nil && n == len(p) {
+				want = append(want, p...)
+				pos += len(p)
+			}
+			if round == 0 {
+				gate.set(false)
+				go func() {
+					time.Sleep(time.Duration(c.StallFlushMs) * time.Millisecond)
+					gate.set(true)
+				}()
+			}
+			aw.Flush()
+			if got := gate.snapshot(); !bytes.Equal(got, want) {
+				return vFailf("async-flush-content", "Flush against a disk stalled for %d ms (round %d) returned with %d bytes in the underlying writer, accepted so far %d",
+					c.StallFlushMs, round, len(got), len(want))
+			}
+		}
+		stalled = false
+		v.Classes = append(v.Classes, "flush-against-stalled-disk")
 	}
 	if c.CloseStalled && stalled {
 		go func() {
